@@ -529,6 +529,11 @@ impl Check for C19 {
             }
             _ => {}
         }
+        if ls.kind != "script" && ls.kind != "staircase" && rng.chance(0.15) {
+            // isolated points whose score is NaN or infinite (what coincident LJ particles give)
+            ls.holes = *rng.pick(&[0.1, 0.3]);
+            ls.nan_holes = true;
+        }
         let mut cfg = gen_cfg(rng, tier, false);
         if rng.chance(0.7) {
             // make sure there are several loops
